@@ -537,7 +537,7 @@ func init() {
 func TestC04_NonInterference(t *testing.T) {
 	st := ev.New("C04", "TestC04_NonInterference", "generated call tree (1-4 frames, all four call kinds to frames and to precompiles, reverting frames allowed) whose precompile calls name the signer, the calling contract or a third party; non-trivial = the program names the third party in a precompile call; distinct by (method, named role, call kind) list")
 	runCorpus(t, st)
-	runRapid(t, st, 500, 30000, func(rt *rapid.T) {
+	runRapid(t, st, 1500, 40000, func(rt *rapid.T) {
 		p := genPxProgram(rt, pxGenOpts{Reverts: true, CallKinds: []string{"DELEGATECALL", "CALLCODE", "STATICCALL"}, PreMethods: append([]string{"commission"}, pxTxMethods...), MaxFrames: 4})
 		if msg := runC04A(st, p); msg != "" {
 			rt.Fatalf("%s", msg)
